@@ -34,7 +34,7 @@ def law_case(draw):
     dmv = sgn * 10**ex
     return {"dm": dmv, "dm_unit": draw(st.sampled_from(["pc / cm3", "pc / cm3", "none", "kpc / cm3", "pc / m3", "pc / (cm2 m)"])),
             "fs": fs, "ref": draw(G.freq_q(5, 10.5, units=("Hz", "kHz", "MHz", "GHz"))), "rate": draw(G.freq_q(0, 9)),
-            "as_array": draw(st.booleans()), "inf_ref": draw(st.integers(0, 9)) == 0}
+            "as_array": draw(st.booleans()), "inf_ref": draw(st.integers(0, 9)) == 0, "dm_k": draw(st.sampled_from(G.DM_KINDS))}
 
 
 def run_law(case, stt):
@@ -47,6 +47,9 @@ def run_law(case, stt):
         D = pb.DM(case["dm"] * u.Unit(case["dm_unit"]))
         dm = F(case["dm"]) * DM_UNITS[case["dm_unit"]]
     check(type(D) is pb.DispersionMeasure, "DM(...) is a {}", type(D).__name__)
+    D, kf = G.dm_kind(pb, D, case.get("dm_k"))
+    dm *= kf
+    stt.label("constant_" + (case.get("dm_k") or "lib"))
     fr = O.fq(case["ref"])
     rate = O.fq(case["rate"])
     fq = [O.q(f) for f in case["fs"]]
@@ -118,6 +121,13 @@ REFSEL = ["none", "center", "lo", "hi", "above", "below", "inside"]
 def idd_case(draw):
     spec = draw(G.signal_spec(classes=G.RADIO, nmin=1, nmax=200, nchan_max=17, max_trailing=1, positive_band=True, ratio_lo=1e-6,
                               sr=G.freq_q(-1, 8), dtypes=["f4", "f8", "c8", "c16", "i8"]))
+    if draw(st.integers(0, 7)) == 0:
+        # a band around zero frequency (labels of both signs, none of them zero): the law is even in f, so delays are not monotonic along it
+        nchan = spec["sshape"][0]
+        bw = O.fq(spec["sr"]) if spec["cls"] in G.BASEBAND else O.fq(spec["bw"])
+        j = draw(st.integers(-(nchan // 2), nchan // 2))
+        un = spec["cf"]["u"]
+        spec["cf"] = {"v": float(bw * (F(j) + F(1, 4)) / O.FREQ_UNITS[un]), "u": un}
     sel = draw(st.sampled_from(REFSEL))
     labels = G.exact_labels(spec)
     fr = ref_freq(spec, sel)
@@ -132,7 +142,8 @@ def idd_case(draw):
         dmv = math.copysign(min(abs(dmv), 1e9), dmv)
     else:
         dmv = sgn * 10 ** draw(st.floats(-3, 3))
-    return {"sig": spec, "dm": dmv, "ref": sel, "dm_unit": draw(st.sampled_from(["none", "pc / cm3", "kpc / cm3", "pc / m3"]))}
+    return {"sig": spec, "dm": dmv, "ref": sel, "dm_unit": draw(st.sampled_from(["none", "pc / cm3", "kpc / cm3", "pc / m3"])),
+            "dm_k": draw(st.sampled_from(G.DM_KINDS))}
 
 
 def ref_freq(spec, sel):
@@ -161,6 +172,9 @@ def run_idd(case, stt):
         sc = DM_UNITS[case["dm_unit"]]
         val = float(F(case["dm"]) / sc)
         D, dm = pb.DM(val * u.Unit(case["dm_unit"])), F(val) * sc
+    D, kf = G.dm_kind(pb, D, case.get("dm_k"))
+    dm *= kf
+    stt.label("constant_" + (case.get("dm_k") or "lib"))
     kw = {} if case["ref"] == "none" else {"ref_freq": float(fr) * u.Hz}
     ds = [O.disp_delay_s(dm, f, fr) * rate for f in labels]
     fz = max(O.delay_fuzz(dm, f, fr, rate) for f in labels) if dm != 0 else 0
@@ -241,6 +255,10 @@ def run_idd(case, stt):
     stt.label("delays_distinct" if len(set(rr)) > 1 else "delays_equal")
     stt.label("even_edge_aligned" if nchan % 2 == 0 and spec["align"] != "center" else "centered")
     stt.label("dm_unit_" + case["dm_unit"])
+    if min(labels) < 0 < max(labels):
+        stt.label("band_straddles_zero")
+        if any(rr[i] > max(rr[i - 1], rr[i + 1]) or rr[i] < min(rr[i - 1], rr[i + 1]) for i in range(1, nchan - 1)):
+            stt.label("delays_not_monotonic_along_band")
 
 
 @st.composite
